@@ -400,9 +400,9 @@ func pow(a, n int) int {
 }
 
 func runScaled(c *lib.Ctx, e *env, shard, nshards int) {
-	maxN := 5
+	maxN, histMaxN := 5, 3
 	if !c.Quick() {
-		maxN = 7
+		maxN, histMaxN = 7, 4
 	}
 	alphabet := []int{minLine, minLine + 1, maxEntry - 3, maxEntry - 2}
 	fillers := []int{0, 99, 100, 101, 200}
@@ -430,6 +430,12 @@ func runScaled(c *lib.Ctx, e *env, shard, nshards int) {
 							fs2 := fs
 							fs2.TwoFiles, fs2.Split = true, s
 							e.checkTwo(fs2)
+							if n <= histMaxN {
+								e.checkHist(fs2, 3)
+							}
+						}
+						if n <= histMaxN {
+							e.checkHist(fs, 3)
 						}
 					}
 				}
@@ -471,6 +477,8 @@ func runReal(c *lib.Ctx, e *env, shard, nshards int) {
 					fs2 := fs
 					fs2.TwoFiles, fs2.Split = true, 2
 					e.checkTwo(fs2)
+					e.checkHist(fs2, 3)
+					e.checkHist(fs, 3)
 				}
 			}
 		}
@@ -506,7 +514,9 @@ func replay(c *lib.Ctx, raw json.RawMessage) string {
 		}
 	}
 	e := &env{c: c, dir: c.TmpDir}
-	if fs.TwoFiles {
+	if strings.HasPrefix(fs.Check, "hist:") {
+		e.checkHist(fs, 3)
+	} else if fs.TwoFiles {
 		e.checkTwo(fs)
 	} else {
 		e.checkFile(fs, -1)
